@@ -15,7 +15,7 @@ import c04 as K           # the statement signatures, the type DSL and the value
 PID = 'C11'
 MANIFEST = dict(
     category='proof',
-    text='PARTIAL. Proved (Coq, every theorem closed under the global context) about an executable model of one thread\'s log path (thread-context creation, the size pass with the real cache-clearing rule on the InlinedVector size cache, reservation on the bounded queue / growth and shrink of the unbounded queue, header + encode pass): for every frontend configuration, every state a thread can reach by any sequence of preallocate / log / shrink / backend-drain operations, every argument list over the nested type universe of C04 and with or without a dynamic level: registered thread + at most 12 cached lengths (more generally: at most the current capacity of the size cache) + encoded size granted by the current queue buffer + no not-trivially-copyable deferred type and no filesystem path at any depth => the call performs none of the modelled allocations and is enqueued (C11_steady_no_alloc, C11_steady_no_alloc_capacity); the first call / preallocate() does allocate; a 13th cached length allocates, also when all thirteen come from one std::vector<char const*> argument; clear() keeps the grown buffer; an unbounded queue allocates a node exactly when the record misses the current node, a bounded queue never; the excluded kinds are visible allocation sources; in a frontend step only DirectFormatCodec arguments are formatted, every other kind on the backend (C11_format_on_backend). The inline capacity 12, the growth factor 2, the shapes of push_back / clear / the cache-clearing rule / log_statement and "only DirectFormatCodec calls libfmt, only Codec<fs::path> builds a temporary at the call site" are read from the source on every run (T-src). NOT proved: that the real code has no allocation source besides the four modelled ones (a temporary inside a codec, libfmt, a macro, the standard library): this is only SAMPLED, by counting operator new / malloc family / mmap per thread around each real log call and recording the thread of every user formatter, over ~100 statement signatures x 9 macro families x bounded and unbounded frontends with generated values (0-14 C strings, records that exactly fit / miss by one the remaining buffer, first vs second call, after drain, after shrink), compared with the model\'s prediction and checked by a monitor of the property itself.',
+    text='PARTIAL. Proved (Coq, every theorem closed under the global context) about an executable model of one thread\'s log path (thread-context creation on the first call / preallocate(), the size pass with the real cache-clearing rule on the InlinedVector size cache, reservation on the bounded queue / growth and shrink of the unbounded queue, header + encode pass): for every frontend configuration, every state a thread can reach by any sequence of preallocate / log / shrink / backend-drain operations, every argument list over the nested type universe of C04 and with or without a dynamic level: registered thread + at most 12 cached lengths (more generally: at most the current capacity of the size cache) + encoded size granted by the current queue buffer + no not-trivially-copyable deferred type and no filesystem path at any depth + every std::map/unordered_map inside the arguments has arithmetic key and mapped type or ones whose copies cannot allocate => the call performs none of the modelled allocations and is enqueued (C11_steady_no_alloc, C11_steady_no_alloc_capacity). The last hypothesis is not part of the property: the real map codecs copy every element into a temporary std::pair at the call site, so a std::map<uint32_t, std::string> allocates on every call - proved on the model (C11_steady_no_alloc_refuted_map), replayed on the code, open finding C11-F1. Also proved: the first call / preallocate() does allocate; a 13th cached length allocates, also when all thirteen come from one std::vector<char const*> argument; clear() keeps the grown buffer; an unbounded queue allocates a node when the record misses the current node, a bounded queue never; the excluded kinds are visible allocation sources; in a frontend step only DirectFormatCodec arguments are formatted, every other kind on the backend (C11_format_on_backend). The inline capacity 12, the growth factor 2, the shapes of push_back / clear / the cache-clearing rule / log_statement and "only DirectFormatCodec calls libfmt, only Codec<fs::path> builds a temporary in compute_encoded_size / encode" are read from the source on every run (T-src). NOT proved - exploration only: that the real code has no allocation source besides the modelled ones (a temporary inside a codec, libfmt, a macro, the standard library) and that no formatter runs on the caller. This is SAMPLED by counting operator new / malloc family / mmap per thread around each real log call and recording the thread of every user formatter, over ~100 statement signatures x 9 macro families x a bounded and an unbounded frontend with generated values (0-14 C strings, records that exactly fit / miss by one the remaining buffer, first vs second call, after drain, after shrink), compared with the model\'s prediction and checked by a monitor of the property itself; that sampling found C11-F1.',
     design='5 C11',
     technique='Coq proof over an executable allocation model of the frontend path (invariant over all reachable thread states, structural induction on nested types) + T-src facts from clang AST + differential runs against an allocation-counting, formatter-thread-recording harness and a direct property monitor (exploration for unmodelled code)')
 TRUSTED = [
@@ -531,6 +531,26 @@ def run(tier):
                                       for k in ('iv_inline_capacity', 'iv_growth_factor', 'tc_size_cache_by_value')}})
     except OSError:
         pass
+    if broken:
+        # say which T-src tie lemma no longer checks (a stale TieC11.vo otherwise hides it behind an import error)
+        from vlib import sh, COQ
+        rc, so, se = sh(['coqc', '-Q', 'theories', 'Quill', '-Q', 'gen', 'QuillGen', os.path.join('theories', 'TieC11.v')], cwd=COQ, timeout=300)
+        if rc != 0:
+            m = re.search(r'line (\d+)', se or '')
+            lemma = ''
+            if m:
+                src = open(os.path.join(COQ, 'theories', 'TieC11.v')).read().splitlines()[:int(m.group(1))]
+                names = [re.match(r'\s*Lemma\s+(\w+)', l) for l in src]
+                names = [n.group(1) for n in names if n]
+                lemma = names[-1] if names else ''
+            broken.insert(0, 'T-src tie lemma TieC11.%s does not check against this source tree (the source no longer has the shape / constants the model was written against)' % (lemma or '?'))
+            ck.tie.append({'name': 'TieC11.' + (lemma or '?'), 'ok': False})
+            try: os.remove(os.path.join(COQ, 'theories', 'TieC11.vo'))
+            except OSError: pass
+        else:
+            ck.tie.append({'name': 'TieC11 (all lemmas)', 'ok': True})
+    else:
+        ck.tie.append({'name': 'TieC11 (all lemmas)', 'ok': True})
     mexe, err = ck.build_modelrun()
     if not mexe:
         ck.violation('no-failing-input-found', 'model extraction/build failed: ' + err[-400:]); return ck.finish(trusted=TRUSTED)
@@ -547,9 +567,9 @@ def run(tier):
     g.edge()
     g.cstrings(1 if quick else 6)
     g.maps(2 if quick else 40)
-    g.sweep(1 if quick else 6)
-    g.fit(40 if quick else 1500)
-    g.scenarios(700 if quick else 40000)
+    g.sweep(1 if quick else 10)
+    g.fit(40 if quick else 3000)
+    g.scenarios(700 if quick else 120000)
     corp = corpus()
     cases = [c for f, c in corp] + g.cases
     ml = ck.run_model(mexe, cases)
@@ -604,7 +624,7 @@ def run(tier):
         ck.violation('no-failing-input-found', '; '.join(broken))
 
     # statistics of what the run actually exercised (from the implementation's observations)
-    st = dict(log_calls=0, steady_fit_listed_calls=0, steady_fit_listed_allocs=0, first_calls_allocating=0, grow_events=0, dropped=0, threw=0,
+    st = dict(log_calls=0, steady_fit_listed_calls=0, steady_fit_listed_calls_that_allocated=0, first_calls_allocating=0, grow_events=0, dropped=0, threw=0,
               ivcap_growths=0, direct_fmt_on_caller=0, cases_deferred_fmt_on_backend=0, deferred_fmt_on_backend=0, deferred_fmt_on_caller=0)
     for c, i in zip(cases, il):
         obs = parse_obs(i)
@@ -622,7 +642,7 @@ def run(tier):
                 if prev['ivcap'] and ob['ivcap'] > prev['ivcap']: st['ivcap_growths'] += 1
                 if prev['ivcap'] and ob['res'] == 1 and ob['cap'] == prev['cap'] and (o['kind'] == 2 or (listed(pc['ts']) and o['nvar'] <= 12)):
                     st['steady_fit_listed_calls'] += 1
-                    if ob['heap'] or ob['mmap']: st['steady_fit_listed_allocs'] += 1
+                    if ob['heap'] or ob['mmap']: st['steady_fit_listed_calls_that_allocated'] += 1
                 st['direct_fmt_on_caller'] += ob['dirfmt']; st['deferred_fmt_on_caller'] += ob['defcaller']
             prev = ob
         s = side.get(pc['cid'])
